@@ -11,7 +11,7 @@
 (* the printed text again and compares the two syntax trees and the two    *)
 (* printed texts.                                                          *)
 (***************************************************************************)
-EXTENDS Naturals, Sequences, FiniteSets, TLC
+EXTENDS Naturals, Sequences, FiniteSets, TLC, SequencesExt
 
 CONSTANTS Depth
 
@@ -54,10 +54,17 @@ Universe == IF Depth = 1 THEN T1
             ELSE IF Depth = 2 THEN T1 \cup Over(T1)
             ELSE BinOver(BinOver(B1)) \cup Over(Over({<<o, LX>> : o \in Unary}))
 
+\* start -> 64 buckets -> the trees of each bucket, so that TLC's workers
+\* enumerate (and print) the universe in parallel; every tree is one state
 VARIABLE tree
-Init == tree \in Universe
-Next == UNCHANGED tree
+NBuckets == 16
+Init == tree = <<"start">>
+Next == \/ /\ tree = <<"start">>
+           /\ \E k \in 1..NBuckets : tree' = <<"bucket", k>>
+        \/ /\ tree[1] = "bucket"
+           /\ LET u == SetToSeq(Universe) IN      \* evaluated once per bucket
+              \E i \in {j \in 1..Len(u) : j % NBuckets = tree[2] - 1} : tree' = u[i]
 Spec == Init /\ [][Next]_tree
 
-EmitOut == PrintT("OUT " \o ToString(tree))
+EmitOut == tree[1] \in {"start", "bucket"} \/ PrintT("OUT " \o ToString(tree))
 =============================================================================
